@@ -39,4 +39,6 @@ FocusAll == 1..Len(AG_Contribs)
 \* the version / conflict core: three versions of one track, another track, unversioned, nested
 FocusCore == {1, 2, 3, 4, 5, 6, 7, 10, 12, 14, 25, 26}
 FocusUses == {1, 5, 29, 30, 31, 32, 33, 34, 35, 36, 37}
+\* versions differing in build metadata only, next to lower and higher ones
+FocusBuild == {1, 4, 5, 6, 38}
 ====
